@@ -136,12 +136,14 @@ func (p *peeker) PushIncludeNewlines(include bool) {
 	}
 
 	p.IncludeNewlinesStack = append(p.IncludeNewlinesStack, include)
+	verifHook("peeker.push", p, nil, include)
 }
 
 func (p *peeker) PopIncludeNewlines() bool {
 	stack := p.IncludeNewlinesStack
 	remain, ret := stack[:len(stack)-1], stack[len(stack)-1]
 	p.IncludeNewlinesStack = remain
+	verifHook("peeker.pop", p, nil, ret)
 
 	if tracePeekerNewlinesStack {
 		// Record who called us so that we can more easily track down any
@@ -169,6 +171,7 @@ func (p *peeker) PopIncludeNewlines() bool {
 // calls will be produced to help identify which caller in the parser is
 // misbehaving.
 func (p *peeker) AssertEmptyIncludeNewlinesStack() {
+	verifHook("peeker.assert", p, nil, len(p.IncludeNewlinesStack))
 	if len(p.IncludeNewlinesStack) != 1 {
 		// Should never happen; indicates mismanagement of the stack inside
 		// the parser.
